@@ -105,6 +105,19 @@ func init() {
 	Checks["C20"] = &Check{Level: "model_checking", Run: CheckC20, QuickBudget: 300, ThoroughBudget: 1800}
 }
 
+func init() {
+	Checks["C14"] = &Check{Level: "model_checking", Run: CheckC14, QuickBudget: 300, ThoroughBudget: 1800,
+		ReplayBody: func(h string) explore.Body {
+			for _, sc := range c14Scenarios(true) {
+				if "C14/"+sc.name == h {
+					sc := sc
+					return sc.body
+				}
+			}
+			return nil
+		}}
+}
+
 // kReplay re-executes an operation-history counterexample of the K space.
 func kReplay(prop string) func(v *Viol) []string {
 	return func(v *Viol) []string {
